@@ -64,6 +64,18 @@ var propSpecs = []PropSpec{
 			cfg.Unwind = 5000
 			cfg.ConcretizeIndex = entry == "VC19_Walk"
 		}},
+	{ID: "C16", Pkgs: []string{"dt"},
+		BoundsQ:     "two lists (lengths <=3 and <=1, symbolic values) + one detached element + nil handle; 1 arbitrary operation out of 11 kinds with handles chosen from every element ever returned (attached, detached, root, nil); full observation (both walks, Slice, both iterators, Len, In/Ok/Value of every handle) compared with a ring model after every step; pop iterators drained",
+		BoundsT:     "same with 2 consecutive arbitrary operations; Stack: 2 operations",
+		Outside:     "longer operation sequences; JSON (reflection, strconv); sorting is C17",
+		Assumptions: commonAssumptions,
+		Tune:        func(cfg *Config, tier, entry string) { cfg.Race = false }},
+	{ID: "C17", Pkgs: []string{"dt"},
+		BoundsQ:     "lists of n<=5 elements with unconstrained symbolic int64 keys, three comparators (native, reversed, key>>1 projected); SortMerge, SortQuick (stability), IsSorted, Heap; list usability after sort",
+		BoundsT:     "n<=6",
+		Outside:     "n beyond the bound; comparison functions that are not strict weak orderings; Set sorting is covered under C18",
+		Assumptions: commonAssumptions,
+		Tune:        func(cfg *Config, tier, entry string) { cfg.Race = false }},
 	{ID: "TV", Pkgs: []string{"internal"}, BoundsQ: "translator validation corpus"},
 }
 
